@@ -268,5 +268,8 @@ def run(tier, seed):
     judge_store_ops(res)
     import livepair
     livepair.run_cert_change(res, tier)
+    import cliclient
+    cliclient.run_get_pin(res, tier)
+    res.rule += " | the real command line (`python -m nauyaca get`, subprocess) twice against one port whose certificate changes, then with --no-trust"
     res.rule += " | every trust / revoke / clear / import step is judged as well: exactly the named pin changes (a third of the histories start with one host pinned on two ports and one pin renewed)"
     return res
